@@ -15,6 +15,8 @@ import Hw.Topo.RenderTop
 import Hw.Topo.RenderCounts
 import Hw.Topo.RenderCover
 import Hw.Topo.RenderSets
+import Hw.Topo.RenderPU
+import Hw.Topo.RestrictExists
 import Hw.Attr.MemAttrsState
 namespace Hw.Props.C08
 open Hw.Topo Hw.Topo.Restrict Hw.Gen.Restrict
@@ -894,5 +896,137 @@ example : ∃ t, treeOf demoDump = .ok t := by
   cases hh : treeOf demoDump with
   | ok t => exact ⟨t, rfl⟩
   | error e => rw [hh] at h; cases h
+
+/-! ### B2: the PU level is the last level; a PU and a NUMA node remain -/
+
+/-- (1) **the PU level is the last level**: for every typed tree with PUs as leaves, the invariant hwloc_connect_levels relies on
+    holds (`puNsT`: along normal children types are in range and PUs have no normal children), and a level of PU type can only be
+    the last level that hwloc_connect_levels builds — PUs wait in the frontier until nothing else is left (`top0` is the first
+    non-PU object and the find_same_type fold only moves to objects with normal children) and have no children to continue with -/
+theorem C08_render_pu_level_last (t : Tree) (ht : typedT t = true) (hl : puLeafT t = true) :
+    puNsT t = true ∧ puLevelLast t = true ∧
+    ∀ (k : Nat) (hk : k < (normalLevels t).length), ((normalLevels t)[k]).1 = tPU → k + 1 = (normalLevels t).length :=
+  ⟨puNs_of_typed.1 t ht hl, puLevelLast_of_typed t ht hl, fun k hk => normalLevels_pu_last t ht hl k hk⟩
+
+/-- (1) hence **normal-level-types** (every normal level has a normal type, the PU type only at the last depth, the Machine type
+    only at depth 0; every special level sits at the depth of its type) for the rendering of every typed tree with PUs as leaves,
+    a Machine root and no second Machine, and **pu-level-deepest** (the last level is a non-empty PU level and every PU is in it)
+    when the tree contains a PU -/
+theorem C08_render_pu_level (t : Tree) (ht : typedT t = true) (hl : puLeafT t = true) (h : Hdr) (ex : RObj → Extra) :
+    (t.obj.type = tMACHINE → machineOnce t → topClause "normal-level-types" (render t h ex) (mkAux (render t h ex)) = true) ∧
+    (isNormal t.obj.type = true → (∃ x ∈ objsT t, x.type = tPU) →
+      topClause "pu-level-deepest" (render t h ex) (mkAux (render t h ex)) = true) :=
+  ⟨fun hm h1 => render_normal_level_types t ht hl hm h1 h ex, fun hr hpu => render_pu_level_deepest t ht hl hr hpu h ex⟩
+
+/-- (1) after ANY restrict call on an input that meets the tree hypotheses (all consequences of WF): normal-level-types, and
+    pu-level-deepest as soon as the result contains a PU -/
+theorem C08_restrict_pu_level (t : Topo) (flagsT : Nat) (s : CSet) (flags : Nat) (ex : RObj → Extra)
+    (ht : typedT t.tree = true) (hm : t.tree.obj.type = tMACHINE) (hl : puLeafT t.tree = true) (hs : mergeSafe t)
+    (h1m : machineOnce t.tree) :
+    topClause "normal-level-types" (afterDump t flagsT s flags ex) (mkAux (afterDump t flagsT s flags ex)) = true ∧
+    ((∃ x ∈ objsT (restrict t s flags).1.tree, x.type = tPU) →
+      topClause "pu-level-deepest" (afterDump t flagsT s flags ex) (mkAux (afterDump t flagsT s flags ex)) = true) := by
+  have hr : isNormal t.tree.obj.type = true := by rw [hm]; decide
+  have h1 := typed_restrict t s flags ht hr
+  have h2 := restrict_leaf_root t s flags ht hr hl hs
+  have hm' : (restrict t s flags).1.tree.obj.type = tMACHINE := by
+    have := congrArg RObj.type h2.2.1; exact this.trans hm
+  exact ⟨render_normal_level_types _ h1.1 h2.1 hm' (machineOnce_restrict t s flags h1m) _ ex,
+    fun hpu => render_pu_level_deepest _ h1.1 h2.1 h1.2 hpu _ ex⟩
+
+/-- (2) **a PU and a NUMA node remain** after a successful call, through level merging, as soon as the input has one protected PU
+    and one protected NUMA node: for the call's own kind an object whose os_index is in S, for the other kind an object that is
+    not (REMOVE_CPULESS / REMOVE_MEMLESS and CPU-less / memory-less afterwards) -/
+theorem C08_restrict_keeps_pu_and_numa (t : Topo) (s : CSet) (flags : Nat) (p : Params) (hp : plan t s flags = some p)
+    (hret : (restrict t s flags).2 = .ok) (hok : okT t.tree = true) (hty : typedT t.tree = true)
+    (hr : isNormal t.tree.obj.type = true) (hleaf : puLeafT t.tree = true) (hpus : puSetsT t.tree = true)
+    (hnumas : numaSetsT t.tree = true) (hs : mergeSafe t) :
+    ((∃ x ∈ objsT t.tree, x.type = tPU ∧ (if p.byNode = true then protPUn p x = true else s.mem x.osidx.toNat = true)) →
+      ∃ y ∈ objsT (restrict t s flags).1.tree, y.type = tPU) ∧
+    ((∃ x ∈ objsT t.tree, x.type = tNUMA ∧ (if p.byNode = true then s.mem x.osidx.toNat = true else protNUMA p x = true)) →
+      ∃ y ∈ objsT (restrict t s flags).1.tree, y.type = tNUMA) :=
+  ⟨restrict_pu_exists t s flags p hp hret hok hty hr hleaf hpus hs, restrict_numa_exists_tree t s flags p hp hret hok hty hr hnumas⟩
+
+/-- (2) **where the protected objects come from**: hwloc_topology_restrict refuses (EINVAL) a set that does not meet the allowed
+    cpuset (nodeset with BYNODESET), so a planned call has an index of the allowed set in S; when the allowed set is covered by the
+    objects of that kind (`coverT`: C01 clauses allowed-sets + cpuset-is-disjoint-union-of-children + pu-cpuset resp.
+    nodeset-decomposition + numa-nodeset; evaluated on every well-formed BEFORE dump, not derived from WF here) that index is the
+    os_index of a PU (NUMA node): the protected object of the call's own kind.  For the other kind every object is protected
+    when the flag word has no REMOVE_CPULESS / REMOVE_MEMLESS. -/
+theorem C08_restrict_protected_exists (t : Topo) (s : CSet) (flags : Nat) (p : Params) (hp : plan t s flags = some p) :
+    (p.byNode = false → coverT t.allowedCpu tPU t.tree = true → ∃ x ∈ objsT t.tree, x.type = tPU ∧ s.mem x.osidx.toNat = true) ∧
+    (p.byNode = true → coverT t.allowedNode tNUMA t.tree = true → ∃ x ∈ objsT t.tree, x.type = tNUMA ∧ s.mem x.osidx.toNat = true) ∧
+    (p.rmExempt = false → ∀ x : RObj, (x.type = tPU → protPUn p x = true) ∧ (x.type = tNUMA → protNUMA p x = true)) :=
+  ⟨(own_kind_protected t s flags p hp).1, (own_kind_protected t s flags p hp).2, fun hx x => prot_of_not_exempt p hx x⟩
+
+/-- (2) every well-formed dump has a PU and a NUMA node, and so has its tree -/
+theorem C08_wf_has_pu_and_numa (d : Dump) (h : WF d) (t : Tree) (ht : treeOf d = .ok t) :
+    (∃ x ∈ objsT t, x.type = tPU) ∧ (∃ x ∈ objsT t, x.type = tNUMA) := wf_tree_has h t ht
+
+/-- **C08_restrict_from_wf_levels_partial** — with NO hypothesis besides `WF d` (plus: a tree could be rebuilt, and the API fact on
+    filters), for every set and every flag word, with `D` the rendering of the model's result:
+    (a) normal-level-types holds for `D` (every call, refused or not);
+    (b) a refused call leaves pu-level-deepest and numa-exists;
+    (c) after a successful call: pu-level-deepest holds when the input has a protected PU, numa-exists when it has a protected NUMA
+        node; the protected object of the OTHER kind exists from `WF d` alone when the flag word has no REMOVE_CPULESS /
+        REMOVE_MEMLESS (`p.rmExempt = false`); the protected object of the call's OWN kind exists when the allowed set is covered
+        (`coverT`).  So: by nodeset without REMOVE_MEMLESS pu-level-deepest, by cpuset without REMOVE_CPULESS numa-exists follow from
+        `WF d` alone; by cpuset pu-level-deepest and by nodeset numa-exists follow from `WF d` and `coverT`.
+    `_partial`: `coverT` is not derived from `WF d`, and under REMOVE_CPULESS / REMOVE_MEMLESS the object of the other kind that
+    survives (one whose cpuset / nodeset keeps an index, which exists because `inside allowed dropped` is refused) is not exhibited. -/
+theorem C08_restrict_from_wf_levels_partial (d : Dump) (h : WF d) (t : Tree) (ht : treeOf d = .ok t)
+    (hf1 : filterOf d.filters tPU ≠ filterKeepStructure) (hf2 : filterOf d.filters tMACHINE ≠ filterKeepStructure)
+    (s : CSet) (flags : Nat) (ex : RObj → Extra) :
+    let T : Topo := { tree := t, allowedCpu := d.allowedCpuset.getD 0, allowedNode := d.allowedNodeset.getD 0, filters := d.filters }
+    let D := afterDump T d.flags s flags ex
+    topClause "normal-level-types" D (mkAux D) = true ∧
+    ((restrict T s flags).2 ≠ .ok → topClause "pu-level-deepest" D (mkAux D) = true ∧ topClause "numa-exists" D (mkAux D) = true) ∧
+    (∀ p, plan T s flags = some p → (restrict T s flags).2 = .ok →
+      ((∃ x ∈ objsT t, x.type = tPU ∧ (if p.byNode = true then protPUn p x = true else s.mem x.osidx.toNat = true)) →
+        topClause "pu-level-deepest" D (mkAux D) = true) ∧
+      ((∃ x ∈ objsT t, x.type = tNUMA ∧ (if p.byNode = true then s.mem x.osidx.toNat = true else protNUMA p x = true)) →
+        topClause "numa-exists" D (mkAux D) = true) ∧
+      (p.byNode = true → p.rmExempt = false → topClause "pu-level-deepest" D (mkAux D) = true) ∧
+      (p.byNode = false → p.rmExempt = false → topClause "numa-exists" D (mkAux D) = true) ∧
+      (p.byNode = false → coverT T.allowedCpu tPU t = true → topClause "pu-level-deepest" D (mkAux D) = true) ∧
+      (p.byNode = true → coverT T.allowedNode tNUMA t = true → topClause "numa-exists" D (mkAux D) = true)) := by
+  intro T D
+  obtain ⟨hok, hty, hm, hr, hleaf, hpus, hnumas⟩ := wf_treeOf_full h t ht
+  obtain ⟨_, h1m, hsafe⟩ := C08_wf_mergeSafe d h t ht (d.allowedCpuset.getD 0) (d.allowedNodeset.getD 0) hf1 hf2
+  obtain ⟨hasPU, hasNUMA⟩ := wf_tree_has h t ht
+  have lv := C08_restrict_pu_level T d.flags s flags ex hty hm hleaf hsafe h1m
+  refine ⟨lv.1, ?_, ?_⟩
+  · intro hne
+    have e : (restrict T s flags).1 = T := restrict_unchanged_of_not_ok T s flags hne
+    exact ⟨lv.2 (by rw [e]; exact hasPU), render_numa_exists _ (by rw [e]; exact hasNUMA) _ ex⟩
+  · intro p hp hret
+    have keep := C08_restrict_keeps_pu_and_numa T s flags p hp hret hok hty hr hleaf hpus hnumas hsafe
+    have prot := C08_restrict_protected_exists T s flags p hp
+    have hPU : (∃ x ∈ objsT t, x.type = tPU ∧ (if p.byNode = true then protPUn p x = true else s.mem x.osidx.toNat = true)) →
+        topClause "pu-level-deepest" D (mkAux D) = true := fun hex => lv.2 (keep.1 hex)
+    have hNUMA : (∃ x ∈ objsT t, x.type = tNUMA ∧ (if p.byNode = true then s.mem x.osidx.toNat = true else protNUMA p x = true)) →
+        topClause "numa-exists" D (mkAux D) = true := fun hex => render_numa_exists _ (keep.2 hex) _ ex
+    refine ⟨hPU, hNUMA, ?_, ?_, ?_, ?_⟩
+    · intro hb hx
+      obtain ⟨x, hxm, hxt⟩ := hasPU
+      exact hPU ⟨x, hxm, hxt, by rw [hb]; simp only [if_true]; exact ((prot.2.2 hx) x).1 hxt⟩
+    · intro hb hx
+      obtain ⟨x, hxm, hxt⟩ := hasNUMA
+      exact hNUMA ⟨x, hxm, hxt, by rw [hb]; simp only [Bool.false_eq_true, if_false]; exact ((prot.2.2 hx) x).2 hxt⟩
+    · intro hb hc
+      obtain ⟨x, hxm, hxt, hxs⟩ := prot.1 hb hc
+      exact hPU ⟨x, hxm, hxt, by rw [hb]; simp only [Bool.false_eq_true, if_false]; exact hxs⟩
+    · intro hb hc
+      obtain ⟨x, hxm, hxt, hxs⟩ := prot.2.1 hb hc
+      exact hNUMA ⟨x, hxm, hxt, by rw [hb]; simp only [if_true]; exact hxs⟩
+
+/-- non-vacuity of the B2 theorems: `demo` / `demoDump` meet every hypothesis (WF, filters, typed, PUs are leaves, mergeSafe, one
+    Machine: examples above), the allowed sets are covered, a call by cpuset to PU 1 is planned and succeeds, and the result has its
+    PU level last -/
+example : coverT demo.allowedCpu tPU demo.tree = true ∧ coverT demo.allowedNode tNUMA demo.tree = true ∧
+    puNsT demo.tree = true ∧ puLevelLast demo.tree = true ∧ machineOnce demo.tree ∧
+    (plan demo ⟨2, false⟩ flagAdaptMisc).isSome = true ∧ (restrict demo ⟨2, false⟩ flagAdaptMisc).2 = .ok ∧
+    puLevelLast (restrict demo ⟨2, false⟩ flagAdaptMisc).1.tree = true ∧
+    (normalLevels (restrict demo ⟨2, false⟩ flagAdaptMisc).1.tree).map (·.1) = [tMACHINE, tCORE, tPU] := by decide +kernel
 
 end Hw.Props.C08
